@@ -79,11 +79,11 @@ func (p *copyProp) Rule() string {
 	case "C01":
 		return "scenario = random Merkle DAG (<=25 nodes) + root + link-closed pre-populated destination + store pairing + Concurrency + API, executed under one seeded schedule; non-trivial = at least 3 tasks ran and at least 3 scheduling steps had two or more candidates; distinct = distinct event-trace hashes (task ids, yield sites, seam events with node ids)"
 	case "C02":
-		return "scenario as C01 plus 1-3 faults (error before/after the effect, or cancellation) placed on operations the fault-free execution performed; each scenario is executed fault-free, with faults, and re-run without faults; non-trivial = a fault fired, or >=3 tasks and >=3 real scheduling choices; distinct = distinct (event-trace hash, fault plan)"
+		return "scenario as C01 plus 1-3 faults (error before/after the effect, a source body that breaks off half way with a non-EOF error, or cancellation) placed on operations the fault-free execution performed; each scenario is executed fault-free, with faults, and re-run without faults; non-trivial = a fault fired, or >=3 tasks and >=3 real scheduling choices; distinct = distinct (event-trace hash, fault plan)"
 	case "C03":
 		return "scenario = DAG with referrers/indexes + start node + Depth + optional artifact-type/annotation filter + source kind, under one seeded schedule; non-trivial = an ancestor had to be followed, or >=3 tasks and >=3 real scheduling choices; distinct = distinct event-trace hashes"
 	default:
-		return "scenario as C01/C03 with per-operation simulated latencies, recording callbacks and optional callback fault; non-trivial = >=3 tasks and >=3 real scheduling choices, or a callback fault fired; distinct = distinct (event-trace hash, fault plan)"
+		return "scenario as C01/C03 with per-operation simulated latencies, recording callbacks and optional callback fault, another client storing a node right before the copy does, or (with MountFrom) the registry failing one exchange of a mount - the copy may fail then, the counts hold all the same; non-trivial = >=3 tasks and >=3 real scheduling choices, or a callback fault fired; distinct = distinct (event-trace hash, fault plan)"
 	}
 }
 
@@ -292,6 +292,11 @@ func (p *copyProp) Gen(r *Rand, tier string, idx int) any {
 		if r.Chance(0.3) {
 			cp.NFaults = 1
 			cp.FaultPicks = []uint64{r.U64(), r.U64()}
+		} else if cp.MountFrom && cp.DstKind == "remote" && r.Chance(0.5) {
+			// the registry fails one exchange of a mount (its POST, or the upload the mount
+			// turned into after the source content had been asked for)
+			cp.NetFaults = append(cp.NetFaults, NetFaultAt{Store: "dst", Fault: NetFault{
+				Class: pick(r, []string{"upload-put", "upload-put", "upload-start"}), Occur: r.Range(1, 4), Kind: "status-500"}})
 		}
 	}
 	// MapRoot (Copy only)
@@ -1078,10 +1083,13 @@ func (p *copyProp) runInBubble(rc *RunCtx, sc *Scenario, cp *CopyParams, g *Grap
 				info.Outcome = "no-ops"
 				return nil
 			}
-			kinds := []string{"before", "before", "after", "cancel"}
+			kinds := []string{"before", "before", "after", "cancel", "midread"}
 			for i := 0; i < cp.NFaults && 2*i+1 < len(cp.FaultPicks); i++ {
 				f := menu[cp.FaultPicks[2*i]%uint64(len(menu))]
 				f.Kind = kinds[cp.FaultPicks[2*i+1]%uint64(len(kinds))]
+				if f.Kind == "midread" && f.Op != "Fetch" {
+					f.Kind = "before"
+				}
 				faults = append(faults, f)
 			}
 			cp.Faults = faults
@@ -1111,7 +1119,7 @@ func (p *copyProp) runInBubble(rc *RunCtx, sc *Scenario, cp *CopyParams, g *Grap
 		}
 		errFaultFired := false
 		for _, f := range ex.mon.fired {
-			if f.Kind == "before" || f.Kind == "after" {
+			if f.Kind == "before" || f.Kind == "after" || f.Kind == "midread" {
 				errFaultFired = true
 			}
 		}
@@ -1193,10 +1201,17 @@ func (p *copyProp) runInBubble(rc *RunCtx, sc *Scenario, cp *CopyParams, g *Grap
 			}
 		}
 		info.CaseHash = simrt.Mix(info.CaseHash, hashJSON(faults))
-		ex := env.exec(rc, faults, nil, false)
+		ex := env.exec(rc, faults, nil, false, true)
 		account(ex)
 		if ex.mon.firedK["raced"] > 0 {
 			info.Probes["push_raced_by_another_client"] += ex.mon.firedK["raced"]
+		}
+		netFired := 0
+		if env.dst.reg != nil {
+			for k, c := range env.dst.reg.Fired {
+				info.Faults["http-"+k] += c
+				netFired += c
+			}
 		}
 		info.Outcome = string(ex.res.Outcome)
 		if v := outcomeCheck(ex, cp.API); v != nil {
@@ -1204,7 +1219,7 @@ func (p *copyProp) runInBubble(rc *RunCtx, sc *Scenario, cp *CopyParams, g *Grap
 		}
 		info.StateHash = hashJSON(sortedKeys(presentSet(env)))
 		probeCopy(info, ex, cp)
-		return accountingOracle(env, ex, info)
+		return accountingOracle(env, ex, info, netFired > 0)
 	}
 	return nil
 }
@@ -1358,7 +1373,7 @@ func probeCopy(info *RunInfo, ex *copyExec, cp *CopyParams) {
 }
 
 // accountingOracle implements C04.
-func accountingOracle(env *copyEnv, ex *copyExec, info *RunInfo) *Verdict {
+func accountingOracle(env *copyEnv, ex *copyExec, info *RunInfo, netFired bool) *Verdict {
 	g, cp := env.g, env.cp
 	conc := cp.Concurrency
 	if conc <= 0 {
@@ -1434,6 +1449,10 @@ func accountingOracle(env *copyEnv, ex *copyExec, info *RunInfo) *Verdict {
 			return violation("callback-error-lost", "", "callback %s(node %d) returned E but the call returned an error that is not E: %v", f.Op, f.Node, ex.err)
 		}
 		info.Probes["callback_error_propagated"]++
+	} else if ex.err != nil && netFired {
+		// the registry failed an exchange: the copy may fail; the counts still hold
+		info.Nontrivial = true
+		info.Probes["copy_failed_on_registry_failure"]++
 	} else if ex.err != nil {
 		return violation("unexpected-error", "", "fault-free %s failed: %v", cp.API, ex.err)
 	}
@@ -1460,7 +1479,7 @@ func accountingOracle(env *copyEnv, ex *copyExec, info *RunInfo) *Verdict {
 		if len(c.pre) != 1 {
 			return violation("precopy-count", "", "node %d was transferred with %d PreCopy calls", n, len(c.pre))
 		}
-		if !faultFired && len(c.post) != 1 {
+		if ex.err == nil && len(c.post) != 1 {
 			return violation("postcopy-count", "", "node %d was transferred with %d PostCopy calls", n, len(c.post))
 		}
 		if len(c.post) > 1 {
@@ -1470,7 +1489,7 @@ func accountingOracle(env *copyEnv, ex *copyExec, info *RunInfo) *Verdict {
 			return violation("callback-order", "", "node %d: PostCopy before PreCopy", n)
 		}
 	}
-	if !faultFired {
+	if ex.err == nil {
 		// whatever got a PreCopy was taken up for transfer: it ends with exactly one PostCopy
 		// (also when the destination answered "already exists": somebody else was faster)
 		var withCB []int
